@@ -218,7 +218,7 @@ Ltac ov_close :=
   gen_neqb;
   rewrite ?land_if, ?intersects_if;
   rewrite ?intersects_difference, ?intersects_union, ?land_difference, ?intersects_land, ?intersects_0; closed_bits; rewrite ?intersects_0; split_masks;
-  gen_atoms; clear_unused; reflect_u4; finite_reflect.
+  gen_atoms; clear_unused; reflect_u4; timeout 300 finite_reflect.
 
 (* enables with bits cleared relative to a state already known to satisfy the rules *)
 Ltac ov_mono := subst_eqs; match goal with H : ov6 ?o ?i0 ?i1 ?s1 ?s2 ?s3 = true |- ov6 ?o ?j0 ?j1 ?s1 ?s2 ?s3 = true =>
